@@ -242,6 +242,11 @@ def observe_blockwise_family(rng=None):
         return out
     out += [
         "scn udp 1 obs:1:%s onote:%s:@1:1:st1 do:2:%s:non blkp:%s:40001:content-of-the-big-resource settle" % (a, a, a, a),
+        # a request under the live observation's token, answered by a message that carries an Observe option: it is the request's
+        # response and goes to the request only; the next notification goes to the observation only
+        "scn udp 0 obs:1:%s onote:%s:@1:1:st1 do:2:%s:non onote:%s:40001:2:for-the-do onote:%s:40002:3:st3 settle" % (a, a, a, a, a),
+        "scn udp 0 obs:1:%s onote:%s:@1:1:st1 do:2:%s:con onote:%s:@2:2:for-the-do onote:%s:40002:3:st3 settle" % (a, a, a, a, a),
+        "scn udp 1 obs:1:%s onote:%s:@1:1:st1 onote:%s:40001:2:st2 do:2:%s:non onote:%s:40002:3:for-the-do settle" % (a, a, a, a, a),
         "scn udp 1 obs:1:%s onote:%s:@1:1:st1 do:2:%s:con blkp:%s:40001:content-of-the-big-resource onote:%s:40003:2:st2 settle" % (a, a, a, a, a),
         "scn udp 1 obs:1:%s onote:%s:@1:1:st1 onote:%s:40001:2:st2 do:2:%s:con blkp:%s:40002:the-big-resource-for-b onote:%s:40004:3:st3 settle" % (a, a, a, b, b, a),
         "scn udp 1 obs:1:%s onote:%s:@1:1:st1 do:2:%s:non do:3:%s:non blkp:%s:40001:big-one-under-the-shared-token blkp:%s:40003:big-two-under-another-token settle" % (a, a, a, b, a, b),
